@@ -14,6 +14,8 @@ import PqlModel.Props.C07OperatorIRSummarize
 import PqlModel.Props.C07OperatorIRRender
 import PqlModel.Props.C07OperatorIRJoin
 import PqlModel.Props.C07OperatorIRParse
+import PqlModel.Props.C07ExprIR
+import PqlModel.Props.C07ParserIR
 #print axioms Pql.C07.C07_precedence_table
 #print axioms Pql.C07.C07_spec_prec_eq_model
 #print axioms Pql.C07.C07_join_kinds
@@ -96,3 +98,52 @@ import PqlModel.Props.C07OperatorIRParse
 #print axioms Pql.OpIR.C07_firstParse_stmt
 #print axioms Pql.OpIR.C07_Parse_tokens_ir
 #print axioms Pql.OpIR.C07_Parse_ir
+#print axioms Pql.ExprParseIR.C07_next_ir
+#print axioms Pql.ExprParseIR.C07_prev_ir
+#print axioms Pql.ExprParseIR.C07_pushback
+#print axioms Pql.ExprParseIR.C07_eof_sticky
+#print axioms Pql.ExprParseIR.C07_endSplit_ir
+#print axioms Pql.ExprParseIR.C07_endSplit_model
+#print axioms Pql.ExprParseIR.C07_endSplit_not_split
+#print axioms Pql.ExprParseIR.C07_ident_ir
+#print axioms Pql.ExprParseIR.C07_qualifiedIdent_ir
+#print axioms Pql.ExprParseIR.C07_split_ir
+#print axioms Pql.ExprParseIR.C07_split_ir_needs_search
+#print axioms Pql.ExprParseIR.C07_split_ir_nonvacuous
+#print axioms Pql.ExprParseIR.C07_innerPrimaryExpr_ir
+#print axioms Pql.ExprParseIR.C07_primaryExpr_ir
+#print axioms Pql.ExprParseIR.C07_unaryExpr_ir
+#print axioms Pql.ExprParseIR.C07_exprBinaryTrail_ir
+#print axioms Pql.ExprParseIR.C07_expr_ir
+#print axioms Pql.ExprParseIR.C07_exprList_ir
+#print axioms Pql.ExprParseIR.C07_expr_ir_total
+#print axioms Pql.ExprParseIR.C07_expr_ir_eof_value
+#print axioms Pql.ExprParseIR.C07_primaryExpr_loop_never_iterates
+#print axioms Pql.ExprParseIR.nextIR_ir
+#print axioms Pql.ExprParseIR.prevIR_ir
+#print axioms Pql.ExprParseIR.endSplitIR_ir
+#print axioms Pql.ExprParseIR.splitIR_ir
+#print axioms Pql.ExprParseIR.identIR_ir
+#print axioms Pql.ExprParseIR.qualifiedIdentIR_ir
+#print axioms Pql.ExprParseIR.innerIR_ir
+#print axioms Pql.ExprParseIR.primaryIR_ir
+#print axioms Pql.ExprParseIR.unaryIR_ir
+#print axioms Pql.ExprParseIR.trailIR_ir
+#print axioms Pql.ExprParseIR.exprIR_ir
+#print axioms Pql.ExprParseIR.exprListIR_ir
+#print axioms Pql.ExprParseIR.C07_innerPrimaryExpr_ir_exact
+#print axioms Pql.ExprParseIR.C07_primaryExpr_ir_exact
+#print axioms Pql.ExprParseIR.C07_unaryExpr_ir_exact
+#print axioms Pql.ExprParseIR.C07_exprBinaryTrail_ir_exact
+#print axioms Pql.ExprParseIR.C07_expr_ir_exact
+#print axioms Pql.ExprParseIR.C07_exprList_ir_exact
+#print axioms Pql.ExprParseIR.C07_expr_ir_fuel_only_below
+#print axioms Pql.ExprParseIR.C07_expr_ir_entry
+#print axioms Pql.ExprParseIR.C07_exprList_ir_entry
+#print axioms Pql.ExprParseIR.C07_expr_ir_exact_needs_fuel
+#print axioms Pql.ExprParseIR.C07_expr_ir_exact_nonvacuous
+#print axioms Pql.ParserIR.C07_callee_expr_is_unit
+#print axioms Pql.ParserIR.C07_callee_exprList_is_unit
+#print axioms Pql.ParserIR.C07_callee_ident_is_unit
+#print axioms Pql.ParserIR.C07_callee_expr_is_unit_entry
+#print axioms Pql.ParserIR.C07_callee_expr_is_unit_needs_fuel
